@@ -224,6 +224,14 @@ def run_flow(program, uid, policy, args=None, heap=None, self_cls=None):
         params.append(fn.args.vararg.arg)
     if fn.args.kwarg:
         params.append(fn.args.kwarg.arg)
+    defaults = {}
+    pos = fn.args.posonlyargs + fn.args.args
+    for a, d in zip(pos[len(pos) - len(fn.args.defaults):], fn.args.defaults):
+        if isinstance(d, ast.Constant):
+            defaults[a.arg] = Const(d.value)
+    for a, d in zip(fn.args.kwonlyargs, fn.args.kw_defaults):
+        if isinstance(d, ast.Constant):
+            defaults[a.arg] = Const(d.value)
     for p in params:
         if args and p in args:
             env[p] = args[p]
@@ -231,6 +239,8 @@ def run_flow(program, uid, policy, args=None, heap=None, self_cls=None):
             env[p] = ObjV("self", self_cls or unit.cls or _enclosing_class(program, unit))
         elif p == "cls" and (self_cls or _enclosing_class(program, unit)):
             env[p] = ClassV(self_cls or _enclosing_class(program, unit))
+        elif args is not None and p in defaults:
+            env[p] = defaults[p]  # a scenario that names its arguments leaves the others at their (constant) defaults, as a call would
         else:
             env[p] = Sym(("param", p))
     interp.call_stack.append(fn)
